@@ -62,6 +62,9 @@ impl UCICommand {
         }
 
         let value_idx = args.iter().position(|&arg| arg == "value");
+        if value_idx.is_some_and(|idx| idx <= name_idx) {
+            return Err("The value of an option must come after its name!".to_string());
+        }
         let value = match value_idx {
             Some(idx) if args.len() > idx => Some(args[idx + 1..].join(" ").to_lowercase()),
             Some(_) => {
@@ -79,7 +82,9 @@ impl UCICommand {
             )
             .to_lowercase();
 
-        assert!(!name.is_empty(), "Name should not be empty!");
+        if name.is_empty() {
+            return Err("Name should not be empty!".to_string());
+        }
 
         Ok(Self::SetOption { name, value })
     }
@@ -129,7 +134,9 @@ impl UCICommand {
                 "wtime" => {
                     idx += 1;
                     limits = limits.white_time(Some(
-                        args[idx]
+                        args
+                            .get(idx)
+                            .ok_or("Missing value")?
                             .parse()
                             .map_err(|e| format!("Failed to parse wtime value: {e}"))?,
                     ));
@@ -137,7 +144,9 @@ impl UCICommand {
                 "btime" => {
                     idx += 1;
                     limits = limits.black_time(Some(
-                        args[idx]
+                        args
+                            .get(idx)
+                            .ok_or("Missing value")?
                             .parse()
                             .map_err(|e| format!("Failed to parse btime value: {e}"))?,
                     ));
@@ -145,7 +154,9 @@ impl UCICommand {
                 "winc" => {
                     idx += 1;
                     limits = limits.white_increment(Some(
-                        args[idx]
+                        args
+                            .get(idx)
+                            .ok_or("Missing value")?
                             .parse()
                             .map_err(|e| format!("Failed to parse winc value: {e}"))?,
                     ));
@@ -153,7 +164,9 @@ impl UCICommand {
                 "binc" => {
                     idx += 1;
                     limits = limits.black_increment(Some(
-                        args[idx]
+                        args
+                            .get(idx)
+                            .ok_or("Missing value")?
                             .parse()
                             .map_err(|e| format!("Failed to parse binc value: {e}"))?,
                     ));
@@ -162,7 +175,9 @@ impl UCICommand {
                 "depth" => {
                     idx += 1;
                     limits = limits.depth(Some(
-                        args[idx]
+                        args
+                            .get(idx)
+                            .ok_or("Missing value")?
                             .parse()
                             .map_err(|e| format!("Failed to parse depth value: {e}"))?,
                     ));
@@ -170,7 +185,9 @@ impl UCICommand {
                 "nodes" => {
                     idx += 1;
                     limits = limits.nodes(Some(
-                        args[idx]
+                        args
+                            .get(idx)
+                            .ok_or("Missing value")?
                             .parse()
                             .map_err(|e| format!("Failed to parse nodes value: {e}"))?,
                     ));
@@ -179,7 +196,9 @@ impl UCICommand {
                 "movetime" => {
                     idx += 1;
                     limits = limits.movetime(Some(
-                        args[idx]
+                        args
+                            .get(idx)
+                            .ok_or("Missing value")?
                             .parse()
                             .map_err(|e| format!("Failed to parse movetime value: {e}"))?,
                     ));
